@@ -370,7 +370,7 @@ Section Exec.
         let after := if sync then [IWaitSync s] else [] in
         match lookup_reg k (reg st) with
         | Some t =>
-          let sb := {| s_key := k; s_tid := t; s_conn := c; s_hb := hb; s_removed := false; s_closed := 0; s_ctxc := false |} in
+          let sb := {| s_key := k; s_tid := t; s_conn := c; s_hb := hb; s_removed := false; s_closed := 0; s_ctxc := s_ctxc (subs st s) |} in
           let st1 := st_sub st s sb in
           let st2 := st_trg st1 t (trg_set_subs (trigs st1 t) (t_subs (trigs st1 t) ++ [s])) in
           let st3 := {| shut := shut st2; rctx := rctx st2; reg := reg st2; byid := byid st2 ++ [s];
@@ -379,7 +379,7 @@ Section Exec.
           Some (emit st3 [OSubInc 1; GReg s t], after, [(TSt s, [IYield PExtHook; IHookJ s t])])
         | None =>
           let t := ntrig st in
-          let sb := {| s_key := k; s_tid := t; s_conn := c; s_hb := hb; s_removed := false; s_closed := 0; s_ctxc := false |} in
+          let sb := {| s_key := k; s_tid := t; s_conn := c; s_hb := hb; s_removed := false; s_closed := 0; s_ctxc := s_ctxc (subs st s) |} in
           let tr := {| t_key := k; t_subs := [s]; t_init := false; t_cancelled := false; t_done := false;
                        t_ulock := false; t_wg := []; t_started := 0 |} in
           let st3 := {| shut := shut st; rctx := rctx st; reg := reg st ++ [(k, t)]; byid := byid st ++ [s];
